@@ -51,4 +51,343 @@ theorem run_resInv {Q : Res → List Out → Prop} (ok : Event → Prop)
     exact run_resInv ok hQ es _ _ (step_idsNodup st e hid) (fun e' he' => hok e' (List.mem_cons_of_mem _ he'))
       (step_resInv st e acc hid (hQ e (hok e (List.mem_cons_self ..))) h)
 
+/-! ### (1) ordering -/
+
+/-- a 2.05 notification (as opposed to a response, a retransmission, a 4.04 goodbye) -/
+def isNotif (o : Out) : Bool := o.tag == .note && o.code == 69
+
+/-- the notifications to (session c, token tok) among `l`, in order -/
+def notifsTo (c tok : Nat) (l : List Out) : List Out := (l.filter (toST c tok)).filter isNotif
+
+theorem notifsTo_append (c tok : Nat) (a b : List Out) : notifsTo c tok (a ++ b) = notifsTo c tok a ++ notifsTo c tok b := by
+  unfold notifsTo; rw [List.filter_append, List.filter_append]
+
+theorem notifsTo_nil (c tok : Nat) : notifsTo c tok [] = [] := rfl
+
+theorem notifsTo_resp (c tok : Nat) (out : Out) (h : out.tag = .resp) : notifsTo c tok [out] = [] := by
+  unfold notifsTo
+  rw [List.filter_filter, List.filter_eq_nil_iff]
+  intro o ho
+  simp at ho; subst ho
+  simp [isNotif, h]
+
+theorem mem_addToRes {y : Res} {c tok key m : Nat} {o : Sub} (h : o ∈ (addToRes y c tok key m).subs) :
+    o = { sess := c, token := tok, key := key, nonCnt := 0, failCnt := 0, dirty := false, mid := m, lastVer := none } ∨ o ∈ y.subs := by
+  unfold addToRes at h
+  split at h
+  · exact Or.inr h
+  · dsimp only at h
+    cases h with
+    | head => exact Or.inl rfl
+    | tail _ h' =>
+      right
+      split at h'
+      · exact List.mem_of_mem_eraseP h'
+      · exact h'
+
+theorem ResLeF.mem_sub {y' y : Res} (h : ResLeF y' y) {o' : Sub} (ho : o' ∈ y'.subs) : ∃ o ∈ y.subs, coreF o = coreF o' :=
+  h.subs.mem ho
+
+theorem coreF_fields {a b : Sub} (h : coreF a = coreF b) :
+    a.sess = b.sess ∧ a.token = b.token ∧ a.key = b.key ∧ a.dirty = b.dirty ∧ a.nonCnt = b.nonCnt ∧ a.lastVer = b.lastVer ∧ a.mid = b.mid := by
+  unfold coreF at h
+  cases a; cases b
+  simp only [Sub.mk.injEq] at h
+  simp [h]
+
+theorem matchST_coreF {c tok : Nat} {a b : Sub} (h : coreF a = coreF b) : matchST c tok a = matchST c tok b := by
+  have := coreF_fields h
+  unfold matchST; rw [this.1, this.2.1]
+
+/-- ordering invariant for one target (session c, token tok) on one resource y: the notifications written to it carry strictly
+    increasing versions, none newer than the resource, and one that carries the resource's CURRENT version leaves neither
+    the resource nor the entry dirty (so it will not be repeated: `Visit.skip`). -/
+structure OrdInv (c tok : Nat) (y : Res) (acc : List Out) : Prop where
+  nodup : NoDup y
+  sorted : (notifsTo c tok acc).Pairwise (fun a b => a.ver < b.ver)
+  bound : ∀ a ∈ notifsTo c tok acc, a.ver ≤ y.ver ∧
+    (a.ver = y.ver → y.dirty = false ∧ ∀ o ∈ y.subs, matchST c tok o = true → o.dirty = false)
+
+theorem OrdInv.congr {c tok : Nat} {y : Res} {acc acc' : List Out} (h : OrdInv c tok y acc)
+    (he : notifsTo c tok acc' = notifsTo c tok acc) : OrdInv c tok y acc' :=
+  ⟨h.nodup, he ▸ h.sorted, he ▸ h.bound⟩
+
+theorem OrdInv.same_acc {c tok : Nat} {y y' : Res} {acc : List Out} (h : OrdInv c tok y acc) (hn : NoDup y')
+    (hv : y.ver ≤ y'.ver)
+    (hb : y'.ver = y.ver → y.dirty = false → y'.dirty = false ∧
+      ∀ o' ∈ y'.subs, matchST c tok o' = true → o'.dirty = true → ∃ o ∈ y.subs, matchST c tok o = true ∧ o.dirty = true) :
+    OrdInv c tok y' acc := by
+  refine ⟨hn, h.sorted, ?_⟩
+  intro a ha
+  obtain ⟨h1, h2⟩ := h.bound a ha
+  refine ⟨Nat.le_trans h1 hv, ?_⟩
+  intro he
+  have hvv : y'.ver = y.ver := by omega
+  obtain ⟨h3, h4⟩ := h2 (by omega)
+  obtain ⟨h5, h6⟩ := hb hvv h3
+  refine ⟨h5, ?_⟩
+  intro o' ho' hm
+  cases hd : o'.dirty with
+  | false => rfl
+  | true =>
+    obtain ⟨o, ho, hmo, hdo⟩ := h6 o' ho' hm hd
+    rw [h4 o ho hmo] at hdo; cases hdo
+
+theorem notifsTo_of_filter (c tok : Nat) (acc outs : List Out) (po : List Out) (h : outs.filter (toST c tok) = po) :
+    notifsTo c tok (acc ++ outs) = notifsTo c tok acc ++ po.filter isNotif := by
+  rw [notifsTo_append]; unfold notifsTo; rw [h]
+
+theorem OrdInv.micro {A : Nat → Nat → Nat → Prop} (c tok : Nat) (y : Res) (o : List Out) (y' : Res) (acc : List Out)
+    (h : OrdInv c tok y acc) (hm : Micro A y o y') : OrdInv c tok y' (acc ++ o) := by
+  cases hm with
+  | le hle =>
+    rw [List.append_nil]
+    refine h.same_acc (NoDup.of_idLe hle.le.idLe h.nodup) (by rw [hle.ver]; exact Nat.le_refl _) ?_
+    intro _ hd
+    refine ⟨by rw [hle.dirty]; exact hd, ?_⟩
+    intro o' ho' hmo hdo
+    obtain ⟨o1, ho1, hc⟩ := hle.mem_sub ho'
+    exact ⟨o1, ho1, by rw [matchST_coreF hc]; exact hmo, by rw [(coreF_fields hc).2.2.2.1]; exact hdo⟩
+  | errFlag b =>
+    rw [List.append_nil]
+    exact h.same_acc h.nodup (Nat.le_refl _) (fun _ hd => ⟨hd, fun o' ho' hmo hdo => ⟨o', ho', hmo, hdo⟩⟩)
+  | change =>
+    rw [List.append_nil]
+    refine h.same_acc h.nodup (Nat.le_succ _) ?_
+    intro he; simp at he
+  | register c' tok' key m out hA hal herr htag =>
+    have hf := addToRes_fields y c' tok' key m
+    have h1 : OrdInv c tok y (acc ++ [out]) := h.congr (by rw [notifsTo_append, notifsTo_resp c tok out htag, List.append_nil])
+    refine h1.same_acc (addToRes_noDup y c' tok' key m h.nodup) (by rw [hf.2.2.2.2.2.2.1]; exact Nat.le_refl _) ?_
+    intro _ hd
+    refine ⟨by rw [hf.2.2.2.2.1]; exact hd, ?_⟩
+    intro o' ho' hmo hdo
+    rcases mem_addToRes ho' with rfl | ho1
+    · cases hdo
+    · exact ⟨o', ho1, hmo, hdo⟩
+  | resp out htag _ =>
+    exact h.congr (by rw [notifsTo_append, notifsTo_resp c tok out htag, List.append_nil])
+  | notify d hal hv =>
+    rename_i subs' pd
+    have hn' : NoDup { y with subs := subs', pdirty := pd, dirty := false } := List.Pairwise.sublist hv.idLe h.nodup
+    rcases hv.target c tok h.nodup with ⟨_, h2, h3⟩ | ⟨o1, ho1, hm1, s, pd1, po, hvis, h4, h5, h6⟩
+    · have h1 : OrdInv c tok y (acc ++ o) := h.congr (by rw [notifsTo_of_filter c tok acc o [] h3]; simp)
+      refine h1.same_acc hn' (Nat.le_refl _) (fun _ _ => ⟨rfl, ?_⟩)
+      intro o' ho' hmo
+      rw [h2 o' ho'] at hmo; cases hmo
+    · cases hvis with
+      | skip hyd hod =>
+        have h1 : OrdInv c tok y (acc ++ o) := h.congr (by rw [notifsTo_of_filter c tok acc o [] h6]; simp)
+        refine h1.same_acc hn' (Nat.le_refl _) (fun _ _ => ⟨rfl, ?_⟩)
+        intro o' ho' hmo hdo
+        have := h4 o' ho' hmo
+        simp at this; subst this
+        exact ⟨o1, ho1, hm1, hdo⟩
+      | defer hst =>
+        have h1 : OrdInv c tok y (acc ++ o) := h.congr (by rw [notifsTo_of_filter c tok acc o [] h6]; simp)
+        refine h1.same_acc hn' (Nat.le_refl _) (fun _ hyd => ⟨rfl, ?_⟩)
+        intro o' ho' hmo hdo
+        rcases hst with hst | hst
+        · rw [hyd] at hst; cases hst
+        · exact ⟨o1, ho1, hm1, hst⟩
+      | bye m n hst hd =>
+        have h1 : OrdInv c tok y (acc ++ o) := h.congr (by rw [notifsTo_of_filter c tok acc o _ h6]; simp [isNotif, noteOut])
+        refine h1.same_acc hn' (Nat.le_refl _) (fun _ _ => ⟨rfl, ?_⟩)
+        intro o' ho' hmo hdo
+        have := h4 o' ho' hmo
+        simp at this; subst this
+        cases hdo
+      | error m n hst hd he =>
+        have h1 : OrdInv c tok y (acc ++ o) := h.congr (by rw [notifsTo_of_filter c tok acc o _ h6]; simp [isNotif, noteOut])
+        refine h1.same_acc hn' (Nat.le_refl _) (fun _ _ => ⟨rfl, ?_⟩)
+        intro o' ho' hmo hdo
+        have := h4 o' ho' hmo
+        cases this
+      | sent m n hst hd he =>
+        have heq : notifsTo c tok (acc ++ o) = notifsTo c tok acc ++ [noteOut o1.sess n o1.token 69 (some y.observe) (wantCon y o1) m y.id y.ver] := by
+          rw [notifsTo_of_filter c tok acc o _ h6]; simp [isNotif, noteOut]
+        have hlt : ∀ a ∈ notifsTo c tok acc, a.ver < y.ver := by
+          intro a ha
+          obtain ⟨h1, h2⟩ := h.bound a ha
+          rcases Nat.lt_or_ge a.ver y.ver with hl | hg
+          · exact hl
+          · exfalso
+            obtain ⟨h3, h4'⟩ := h2 (by omega)
+            rcases hst with hst | hst
+            · rw [h3] at hst; cases hst
+            · rw [h4' o1 ho1 hm1] at hst; cases hst
+        refine ⟨hn', ?_, ?_⟩
+        · rw [heq, List.pairwise_append]
+          refine ⟨h.sorted, List.pairwise_singleton _ _, ?_⟩
+          intro a ha b hb
+          simp at hb; subst hb
+          exact hlt a ha
+        · intro a ha
+          rw [heq] at ha
+          rcases List.mem_append.mp ha with ha | ha
+          · have := hlt a ha
+            exact ⟨Nat.le_of_lt this, fun he' => by dsimp only at he'; omega⟩
+          · simp at ha; subst ha
+            refine ⟨Nat.le_refl _, fun _ => ⟨rfl, ?_⟩⟩
+            intro o' ho' hmo
+            have := h4 o' ho' hmo
+            simp at this; subst this
+            rfl
+  | clean hc =>
+    rw [List.append_nil]
+    exact h.same_acc h.nodup (Nat.le_refl _) (fun _ _ => ⟨rfl, fun o' ho' hmo hdo => ⟨o', ho', hmo, hdo⟩⟩)
+  | delete pd =>
+    rw [List.append_nil]
+    refine h.same_acc ?_ (Nat.le_refl _) (fun _ _ => ⟨rfl, fun o' ho' => by cases ho'⟩)
+    unfold NoDup; exact List.Pairwise.nil
+/-! ### the Observe value of a notification is the start value plus the number of effective changes, mod 2^24 -/
+theorem Visit.notif_fields {d : Bool} {r : Res} {o : Sub} {s : Option Sub} {pd : Bool} {outs : List Out}
+    (h : Visit d r o s pd outs) : ∀ out ∈ outs, isNotif out = true → out.obs = some r.observe ∧ out.ver = r.ver := by
+  cases h <;> simp [noteOut, isNotif]
+
+theorem Visits.notif_fields {d : Bool} {r : Res} {subs subs' : List Sub} {pd : Bool} {outs : List Out}
+    (h : Visits d r subs subs' pd outs) : ∀ out ∈ outs, isNotif out = true → out.obs = some r.observe ∧ out.ver = r.ver := by
+  induction h with
+  | nil => intro out ho; cases ho
+  | cons hv _ ih =>
+    intro out ho
+    rcases List.mem_append.mp ho with ho | ho
+    · exact hv.notif_fields out ho
+    · exact ih out ho
+
+structure ValInv (b : Nat) (y : Res) (acc : List Out) : Prop where
+  cur : y.observe = (b + y.ver) % 16777216
+  outs : ∀ a ∈ acc, isNotif a = true → a.obs = some ((b + a.ver) % 16777216)
+
+theorem ValInv.micro {A : Nat → Nat → Nat → Prop} (b : Nat) (y : Res) (o : List Out) (y' : Res) (acc : List Out)
+    (h : ValInv b y acc) (hm : Micro A y o y') : ValInv b y' (acc ++ o) := by
+  cases hm with
+  | le hle => rw [List.append_nil]; exact ⟨by rw [hle.observe, hle.ver]; exact h.cur, h.outs⟩
+  | errFlag b' => rw [List.append_nil]; exact ⟨h.cur, h.outs⟩
+  | change =>
+    rw [List.append_nil]
+    refine ⟨?_, h.outs⟩
+    dsimp only
+    rw [h.cur]; unfold nextObserve; omega
+  | register c' tok' key m out hA hal herr htag =>
+    have hf := addToRes_fields y c' tok' key m
+    refine ⟨by rw [hf.2.2.2.2.2.2.2.1, hf.2.2.2.2.2.2.1]; exact h.cur, ?_⟩
+    intro a ha hn
+    rcases List.mem_append.mp ha with ha | ha
+    · exact h.outs a ha hn
+    · simp at ha; subst ha; simp [isNotif, htag] at hn
+  | resp out htag _ =>
+    refine ⟨h.cur, ?_⟩
+    intro a ha hn
+    rcases List.mem_append.mp ha with ha | ha
+    · exact h.outs a ha hn
+    · simp at ha; subst ha; simp [isNotif, htag] at hn
+  | notify d hal hv =>
+    refine ⟨h.cur, ?_⟩
+    intro a ha hn
+    rcases List.mem_append.mp ha with ha | ha
+    · exact h.outs a ha hn
+    · obtain ⟨h1, h2⟩ := hv.notif_fields a ha hn
+      rw [h1, h2, h.cur]
+  | clean hc => rw [List.append_nil]; exact ⟨h.cur, h.outs⟩
+  | delete pd => rw [List.append_nil]; exact ⟨h.cur, h.outs⟩
+
+/-! ### every notification is about a resource of the table -/
+theorem request_outs (st : State) (o : Option Nat) (c r tok key : Nat) (con : Bool) (mid : Nat) :
+    ∀ out ∈ (request st o c r tok key con mid).2, out.tag = .resp := by
+  unfold request
+  dsimp only
+  split
+  · intro out ho; simp at ho; rw [ho]
+  · split
+    · intro out ho; simp at ho; rw [ho]
+    · intro out ho; simp at ho; rw [ho]
+
+theorem io_notes (st : State) : ∀ out ∈ (io st).2, out.tag = .note → out.res ∈ resIds st := by
+  unfold io
+  dsimp only
+  intro out ho ht
+  rcases List.mem_append.mp ho with ho | ho
+  · unfold checkNotify at ho
+    split at ho
+    · exact (notifyAll_outs _ _ out ho).2
+    · cases ho
+  · rw [retransmitDue_outs _ _ out ho] at ht; cases ht
+
+theorem rxThenIo_notes (st : State) (p : State × List Out) (hp : ∀ out ∈ p.2, out.tag ≠ .note) (hids : resIds p.1 = resIds st) :
+    ∀ out ∈ (rxThenIo p).2, out.tag = .note → out.res ∈ resIds st := by
+  unfold rxThenIo
+  dsimp only
+  intro out ho ht
+  rcases List.mem_append.mp ho with ho | ho
+  · exact absurd ht (hp out ho)
+  · rw [← hids]; exact io_notes p.1 out ho ht
+
+theorem step_notes (st : State) (e : Event) : ∀ out ∈ (step st e).2, out.tag = .note → out.res ∈ resIds st := by
+  cases e with
+  | reg c r tok key con mid =>
+    exact rxThenIo_notes st _ (fun out ho => by rw [request_outs st _ c r tok key con mid out ho]; decide) (request_ids st _ c r tok key con mid)
+  | can c r tok key con mid =>
+    exact rxThenIo_notes st _ (fun out ho => by rw [request_outs st _ c r tok key con mid out ho]; decide) (request_ids st _ c r tok key con mid)
+  | get c r tok key con mid =>
+    exact rxThenIo_notes st _ (fun out ho => by rw [request_outs st _ c r tok key con mid out ho]; decide) (request_ids st _ c r tok key con mid)
+  | chg r => intro out ho; cases ho
+  | adv ms => exact io_notes _
+  | ack c n =>
+    unfold step; dsimp only
+    split
+    · split
+      · exact rxThenIo_notes st _ (fun out ho => by cases ho) (handleAck_leF ..).le.idLe.ids
+      · intro out ho; cases ho
+    · intro out ho; cases ho
+  | rst c n =>
+    unfold step; dsimp only
+    split
+    · exact rxThenIo_notes st _ (fun out ho => by cases ho) (handleRst_leF ..).le.idLe.ids
+    · intro out ho; cases ho
+  | err r b => intro out ho; cases ho
+  | lost c => intro out ho; cases ho
+  | del r =>
+    show ∀ out ∈ (deleteResource st r).2, _
+    unfold deleteResource
+    split
+    · intro out ho; cases ho
+    · dsimp only
+      cases hx1 : findRes (change st r) r with
+      | none => intro out ho; cases ho
+      | some x1 =>
+        dsimp only
+        intro out ho _
+        rw [(notifyRes_outs true x1 _ out ho).2.1]
+        have := findRes_mem hx1
+        have h2 : x1.id ∈ resIds (change st r) := List.mem_map_of_mem this.1
+        unfold resIds at h2 ⊢
+        rw [(change_idLe st r).ids] at h2
+        exact h2
+
+theorem run_notes : ∀ (evs : List Event) (st : State), ∀ out ∈ (run st evs).2, out.tag = .note → out.res ∈ resIds st
+  | [], _, out, ho, _ => by cases ho
+  | e :: es, st, out, ho, ht => by
+    rw [run_cons] at ho
+    rcases List.mem_append.mp ho with ho | ho
+    · exact step_notes st e out ho ht
+    · rw [← step_ids st e]; exact run_notes es _ out ho ht
+
+/-! ### run level -/
+theorem run_ordInv (st : State) (evs : List Event) (hid : IdsNodup st) (hnd : NoDupSt st) (c tok : Nat) :
+    ResInv (OrdInv c tok) (run st evs).1 (run st evs).2 := by
+  have := run_resInv (Q := OrdInv c tok) (fun _ => True) (fun e _ y o y' a hq hm => OrdInv.micro c tok y o y' a hq hm)
+    evs st [] hid (fun _ _ => trivial) (fun y hy => ⟨hnd y hy, List.Pairwise.nil, fun a ha => by cases ha⟩)
+  simpa using this
+
+theorem run_valInv (st : State) (evs : List Event) (hid : IdsNodup st) (base : Nat → Nat)
+    (h0 : ∀ y ∈ st.res, y.observe = (base y.id + y.ver) % 16777216) :
+    ResInv (fun y acc => ValInv (base y.id) y acc) (run st evs).1 (run st evs).2 := by
+  have := run_resInv (Q := fun y acc => ValInv (base y.id) y acc) (fun _ => True)
+    (fun e _ y o y' a hq hm => by
+      show ValInv (base y'.id) y' (a ++ o)
+      rw [hm.fixed.1]; exact ValInv.micro (base y.id) y o y' a hq hm)
+    evs st [] hid (fun _ _ => trivial) (fun y hy => ⟨h0 y hy, fun a ha => by cases ha⟩)
+  simpa using this
+
 end Coap.Observe
